@@ -133,7 +133,7 @@ func prefixOf(d digest.Digest) (p [8]byte) {
 
 func accessEngine(w *run.Worker) {
 	ctx := context.Background()
-	w.Cases("access", w.N(1500, 50000), func(c *run.Case) {
+	w.Cases("access", w.N(1500, 40000), func(c *run.Case) {
 		r := caseRng(w, c)
 		n := r.Pick(1, 2, 2, 3, 3, 4, 5, 6, 8, 12)
 		base := genMap(r, n, r.Pick(0, 2, 3, 4, 5, 6), nil)
@@ -142,10 +142,8 @@ func accessEngine(w *run.Worker) {
 		c.Desc("n=%d map=%s perm=%v", n, showMap(base), perm)
 
 		stores := make([]*recStore, n)
-		byKey := map[string]*recStore{}
 		for i, s := range base {
 			stores[i] = newRecStore(s.Key, i)
-			byKey[s.Key] = stores[i]
 		}
 		selA := newSelector(c, base, "composite A")
 		listB, _ := permuted(base, perm)
